@@ -35,6 +35,9 @@ CONSTANTS
                                    \* writes such a character as <U+hhhh>; the replayer puts the character (its UTF-8
                                    \* bytes) in its place, in the tokens and in the expected statement alike.
   VarcharLens, LimVals,            \* integers used in VARCHAR(n) and LIMIT / OFFSET
+  BigInts,                         \* integer literals up to 64 bits.  TLC's integers have 32: such a literal is carried as
+                                   \* its decimal text, [k |-> "big", d |-> "3000000000"]; it denotes the integer literal
+                                   \* with that value (the replayer compares values), and is spelled by its digits
   BaseTable,                       \* the table used where a clause under study needs "some table"
   \* pools: the subsets that are combined exhaustively where the full product would explode
   LeafSet,                         \* comparison leaves tried one at a time
@@ -67,6 +70,7 @@ vars == <<ast, form, rest, toks, junk, tail>>
 
 Col(q, n)      == [k |-> "col", q |-> q, n |-> n]          \* q = "" : unqualified
 IntL(i)        == [k |-> "int", i |-> i]
+BigL(d)        == [k |-> "big", d |-> d]                    \* an integer literal given by its decimal text
 StrL(s)        == [k |-> "str", s |-> s]
 BoolL(b)       == [k |-> "bool", b |-> b]
 Star           == [k |-> "star"]
@@ -128,7 +132,7 @@ RECURSIVE NLeaves(_)
 NLeaves(c) == IF c.k \in {"and", "or"} THEN NLeaves(c.l) + NLeaves(c.r) ELSE 1
 
 \* the trees that text without parentheses can express
-OperandKinds == {"col", "int", "str", "bool"}
+OperandKinds == {"col", "int", "big", "str", "bool"}
 RECURSIVE Expressible(_)
 Expressible(c) ==
   CASE c.k = "or"  -> c.l.k # "or" /\ Expressible(c.l) /\ Expressible(c.r)
@@ -197,7 +201,7 @@ NeverContinues == {KW(w) : w \in (Keywords \ GrammarKeywords) \cup InitialKeywor
 
 \* source text that is not one clean token of the dialect
 RawTexts == {"99999999999999999999", "9223372036854775808", "0x10", "0x", "1_0", "1__0", "017", "08", "0b102",
-             "1.5", ".5", "1.", "1e9", "1e", "1e+", "0x1p-2", "'", "''", "'abc", "'a b' c'", "`abc`", "`", "`abc",
+             "2147483648", "9223372036854775807", "1.5", ".5", "1.", "1e9", "1e", "1e+", "0x1p-2", "'", "''", "'abc", "'a b' c'", "`abc`", "`", "`abc",
              "--", "-- x", "-", "-1", "+", "/", "/*", "/* c */", "*/", "//", "// x", "/**/",
              "@", "#", "$", "%", "&", "|", "^", "~", "?", ":", "[", "]", "{", "}", "_", "__x", "a.b.c", "1a", "a1", "=="}
 \* classes that cannot be written in a TLA+ string
@@ -225,6 +229,7 @@ ColToks(c) == IF c.q = "" THEN <<Id(c.n)>> ELSE <<Id(c.q), P("."), Id(c.n)>>
 OperandToks(x) ==
   CASE x.k = "col"  -> ColToks(x)
     [] x.k = "int"  -> <<IntT(x.i)>>
+    [] x.k = "big"  -> <<[t |-> "INT", v |-> x.d, o |-> ""]>>
     [] x.k = "str"  -> <<StrT(x.s)>>
     [] x.k = "bool" -> <<KW(IF x.b THEN "TRUE" ELSE "FALSE")>>
 
@@ -253,8 +258,8 @@ Concat(parts) == IF Len(parts) = 0 THEN <<>> ELSE parts[1] \o Concat(Tail(parts)
 Forms(s) == IF s.k = "select" /\ s.limit # <<>> /\ s.offset # <<>> THEN {"LO", "OL"} ELSE {"LO"}
 
 SelectToks(s, f) ==
-  LET lim == IF s.limit = <<>> THEN <<>> ELSE <<KW("LIMIT"), IntT(s.limit[1])>>
-      off == IF s.offset = <<>> THEN <<>> ELSE <<KW("OFFSET"), IntT(s.offset[1])>>
+  LET lim == IF s.limit = <<>> THEN <<>> ELSE <<KW("LIMIT")>> \o OperandToks(s.limit[1])      \* an integer literal
+      off == IF s.offset = <<>> THEN <<>> ELSE <<KW("OFFSET")>> \o OperandToks(s.offset[1])
   IN  <<KW("SELECT")>> \o Flat(Map(ItemToks, s.items))
       \o (IF s.from = <<>> THEN <<>> ELSE <<KW("FROM")>> \o TblToks(s.from[1]))
       \o Concat(Map(JoinToks, s.joins))
@@ -311,6 +316,8 @@ ComboCond   == CHOOSE c \in CondPool : c.k = "cmp"
 ComboGroup  == CHOOSE g \in Seqs(ColPool, 2) : g[1] # g[2]
 ComboCol    == CHOOSE c \in ColPool : c.q # ""
 ComboLim    == CHOOSE n \in LimVals : TRUE
+LimLits     == {IntL(n) : n \in LimVals}
+BigLits     == {BigL(d) : d \in BigInts}
 ComboItems  == {CountStar} \cup {<<it>> : it \in ItemPool}
 ComboJoins  == {NoC} \cup {<<JoinOf(jt, tb, ComboCond)>> : jt \in {"INNER", "LEFT"}, tb \in JoinTblPool}
 
@@ -328,7 +335,7 @@ SliceNames == {"sel_item_expr", "sel_item_leaf", "sel_item_tree", "sel_items", "
                "sel_group_count", "sel_group_cols", "sel_group_alias", "sel_order", "sel_limit", "sel_combo",
                "ins_cols", "ins_row", "ins_rows", "upd_one", "upd_list", "upd_where_leaf", "upd_where_tree",
                "del_all", "del_leaf", "del_tree", "create_table", "create_database", "use", "show", "given",
-               "str_insert", "str_update", "str_cond", "str_item", "qid", "uni"}
+               "str_insert", "str_update", "str_cond", "str_item", "qid", "uni", "big"}
 
 \* A slice is a family of sets indexed by a size (list length, number of leaves; for INSERT
 \* 10 * width + rows): SliceSizes(name) are the sizes within the bounds, Slice(name, n) one member.
@@ -366,12 +373,12 @@ Slice(name, n) ==
                                         <<Col("", al)>> \o Tail(g), NoC, NoC, NoC) : g \in Seqs(ColPool, n), al \in Aliases, c \in ColPool}
     [] name = "sel_order"      -> {Sel(BaseItems, BaseFrom, NoC, NoC, NoC, o, NoC, NoC) : o \in Seqs(OrdSet, n)}
     [] name = "sel_limit"      -> {Sel(BaseItems, BaseFrom, NoC, NoC, NoC, o, l, f) :
-                                      o \in {NoC, <<Ord(ComboCol, "DESC")>>}, l \in Opt(LimVals), f \in Opt(LimVals)}
+                                      o \in {NoC, <<Ord(ComboCol, "DESC")>>}, l \in Opt(LimLits), f \in Opt(LimLits)}
     [] name = "sel_combo"      -> {Sel(il, <<tr>>, js, w, g, o, l, f) :
                                       il \in ComboItems, tr \in {Tbl(BaseTable, al) : al \in AliasOpts}, js \in ComboJoins,
                                       w \in Opt(CondPool), g \in {NoC, ComboGroup},
                                       o \in {NoC, <<Ord(ComboCol, "ASC"), Ord(ComboCol, "DESC")>>},
-                                      l \in Opt({ComboLim}), f \in Opt({ComboLim})}
+                                      l \in Opt({IntL(ComboLim)}), f \in Opt({IntL(ComboLim)})}
     [] name = "ins_cols"       -> {Ins(tb, cols, <<FixedRow(n)>>) : tb \in Tables, cols \in Seqs(Cols, n)}
     [] name = "ins_row"        -> {Ins(BaseTable, cols, <<row>>) : cols \in {NoC, FixedCols(n)}, row \in Seqs(Lits, n)}
     [] name = "ins_rows"       -> {Ins(BaseTable, cols, rows) : cols \in {NoC, FixedCols(n \div 10)},
@@ -413,6 +420,16 @@ Slice(name, n) ==
                                   \cup {CreT(qi, <<Def(qj, Ty("INT", 0)), Def(qi, Ty("VARCHAR", ComboLim + 1))>>) : qi \in QuotedIdents, qj \in QuotedIdents}
                                   \cup {CreD(qi) : qi \in QuotedIdents} \cup {UseD(qi) : qi \in QuotedIdents}
 
+    \* integer literals beyond 32 bits wherever an integer literal can stand
+    [] name = "big"            -> {Ins(BaseTable, NoC, <<<<x>>>>) : x \in BigLits}
+                                  \cup {Ins(BaseTable, FixedCols(2), <<<<x, y>>, <<PlainStr, x>>>>) : x \in BigLits, y \in BigLits}
+                                  \cup {Upd(BaseTable, <<Asg(PlainCol.n, x)>>, <<Cmp(op, PlainCol, y)>>) : x \in BigLits, y \in BigLits, op \in CmpOps}
+                                  \cup {WhereSel(Cmp(op, x, PlainCol)) : x \in BigLits, op \in CmpOps}
+                                  \cup {Del(BaseTable, <<AndN(Cmp("<", PlainCol, x), Cmp(">=", y, PlainCol))>>) : x \in BigLits, y \in BigLits}
+                                  \cup {Sel(BaseItems, BaseFrom, <<JoinOf("RIGHT", tb, Cmp("=", PlainCol, x))>>, NoC, NoC, NoC, NoC, NoC) :
+                                           tb \in JoinTblPool, x \in BigLits}
+                                  \cup {SimpleSel(<<Item(x, al), Item(Cmp("!=", x, y), "")>>) : x \in BigLits, y \in BigLits, al \in AliasOpts}
+                                  \cup {Sel(BaseItems, BaseFrom, NoC, NoC, NoC, NoC, l, f) : l \in Opt(BigLits), f \in Opt(BigLits \cup LimLits)}
     \* characters of 2, 3 and 4 bytes in literals and identifiers
     [] name = "uni"            -> {Ins(ti, <<ci>>, <<<<StrL(x), IntL(ComboLim), StrL(y)>>, <<StrL(y), StrL(x), PlainStr>>>>) :
                                       ti \in UniIdents, ci \in UniIdents, x \in UniStrs, y \in UniStrs}
